@@ -180,6 +180,10 @@ func (tk *task) run(chGlobals map[string]lua.LValue, shared map[string]*lua.Func
 				return 0
 			}))
 			F.SetGlobal("ID", lua.LNumber(tk.id*10+i))
+			// what the seeded sequence is when nothing else runs in between (no scheduler yield point inside)
+			if err := F.DoString("math.randomseed(ID) RND1, RND2 = math.random(1000000), math.random(1000000)"); err != nil {
+				tk.err = err.Error()
+			}
 			F.SetGlobal("pause", F.NewFunction(func(L *lua.LState) int {
 				tk.budget = tk.mb.park(pendingOp{kind: parkStep})
 				return 0
@@ -464,6 +468,13 @@ local ok, e = pcall(require, "nosuchmodule")
 note(tostring(ok))
 local f = loadstring("return 1 + 1")
 note(tostring(f()))
+-- a seeded random sequence is this state's own computation
+math.randomseed(ID)
+pause()
+local r1 = math.random(1000000)
+pause()
+local r2 = math.random(1000000)
+note("rnd:" .. tostring(r1 == RND1 and r2 == RND2))
 -- what a failed load leaves in package.loaded belongs to this state alone
 package.preload.failing = function() error("nope") end
 note(tostring(pcall(require, "failing")))
@@ -784,7 +795,7 @@ func (e *Engine) Run(t *core.Tape, cfg *core.Config, st *core.Stats) *core.Viola
 				return fail("solo-equivalence", "task %d %s computed something else than it computes alone\nconcurrent:\n  %s\nsolo:\n  %s\nprogram:\n%s", tk.id, tk.name, strings.Join(tailS(got, 25), "\n  "), strings.Join(tailS(tk.soloTrace, 25), "\n  "), tk.src)
 			}
 		case kLifecycle:
-			one := "E:'life',2870,2,8,'7','xxx'|E:'life-err',false,'x'|E:'deep',30,false,5,28|E:'vararg','1.1','1.1','3.3','1.1'|--- state %d closed|full:7, 3.14|42|x|\"a b\",<hello> <world>,4,1-2-5-8,94,2,false,2,false,userdata,true:true"
+			one := "E:'life',2870,2,8,'7','xxx'|E:'life-err',false,'x'|E:'deep',30,false,5,28|E:'vararg','1.1','1.1','3.3','1.1'|--- state %d closed|full:7, 3.14|42|x|\"a b\",<hello> <world>,4,1-2-5-8,94,2,false,2,rnd:true,false,userdata,true:true"
 			want := fmt.Sprintf(one, 0) + "|" + fmt.Sprintf(one, 1) + "|" + fmt.Sprintf(one, 2)
 			if got := strings.Join(tk.trace, "|"); got != want || tk.err != "" {
 				return fail("solo-equivalence", "lifecycle task %d: trace %q error %q, want %q", tk.id, got, tk.err, want)
